@@ -164,3 +164,12 @@ def c12pins():
 
 if __name__ == '__main__':
     c12pins()
+
+
+def c02pins():
+    pin('C02', 'jer-bitstring-ext-size', mod([('A', Ty('BIT STRING', size=Rng(9, 9, True)))]), 'A',
+        (b'\xff', 2), codec='jer')
+
+
+if __name__ == '__main__':
+    c02pins()
